@@ -460,6 +460,42 @@ def sender_without_descriptor_passing(ctx, seed, idx):
     peer.lose()
 
 
+def unknown_type_with_descriptors(ctx):
+    """A message of a type this protocol version does not define (5 ...), declaring and carrying descriptors, ahead of
+    ordinary descriptor messages.  Dropping the connection there is one acceptable reaction and ignoring the message
+    (descriptors included) another; what may not happen is that a LATER message is handed the stranger's descriptors."""
+    for mode in ('server', 'client'):
+        for mtype in (5, 9, 200):
+            for little in (True, False):
+                p, ep = _rx(mode)
+                case = {'kind': 'unknown-type', 'mode': mode, 'type': mtype}
+                stranger = bytearray(RM.build(RM.SIGNAL, 600, {'path': '/a', 'member': 'Odd', 'interface': 'a.b', 'unix_fds': 1},
+                                              's', ['x'], little))
+                stranger[1] = mtype
+                own = Tok(1, 0)
+                foreign = Tok(0, 0)
+                later = RM.build(RM.METHOD_CALL, 601, {'path': '/a', 'member': 'Later', 'interface': 'a.b', 'unix_fds': 1},
+                                 'h', [0], little)
+                ep.feed_fd(foreign)
+                alive = ep.feed(bytes(stranger))
+                if alive and not ep.lost:
+                    ep.feed_fd(own)
+                    ep.feed(later)
+                ctx.count('evaluations')
+                ctx.count('unknown_type_descriptor_cases')
+                got = [(k, getattr(m, 'member', None), list(m.body or [])) for k, m in p.got]
+                w = {'mode': mode, 'type': mtype, 'little': little, 'delivered': repr(got), 'dropped': bool(ep.lost or ep.crashes)}
+                for k, member, body in got:
+                    if member == 'Later' and not (len(body) == 1 and body[0] is own):
+                        ctx.report('descriptor-misattributed', 'after a message of unknown type %d that carried a descriptor, the '
+                                   'next message was delivered with %r; its own descriptor is %r' % (mtype, body, own), w, case)
+                        return
+                    if member == 'Odd':
+                        ctx.count('unknown_type_delivered')
+                if ep.lost or ep.crashes:
+                    ctx.count('unknown_type_drops_the_connection')
+
+
 def run(ctx):
     si, sn = ctx.shard or (0, 1)
     quick = ctx.tier == 'quick'
@@ -553,6 +589,8 @@ def run(ctx):
         ctx.count('burst_schedules')
         ctx.counters['max_descriptors_queued'] = max(ctx.counters.get('max_descriptors_queued', 0),
                                                      sum(m['nfd'] for m in msgs))
+    if si == 0:
+        unknown_type_with_descriptors(ctx)
     for i in range((1500 if quick else 20000) // sn):
         sender_case(ctx, ctx.seed, i * sn + si)
     for i in range((300 if quick else 6000) // sn):
@@ -576,6 +614,9 @@ def replay(ctx, rp):
         return
     if case['kind'] == 'two-receivers':
         two_receivers(ctx, seed, case['idx'])
+        return
+    if case['kind'] == 'unknown-type':
+        unknown_type_with_descriptors(ctx)
         return
     if case['kind'] == 'send-tcp':
         sender_without_descriptor_passing(ctx, seed, case['idx'])
